@@ -147,6 +147,8 @@ def collect_verus_units(prop, repo, scratch, only=None):
             all_props.add('C06')
         if sc.get('kind', 'single') in ('single', 'multi'):
             all_props.add('C04') if sc.get('error_is_c04', True) else None
+        if sc.get('kind') == 'multi':
+            all_props.add('C17')      # only the wiring facts of a multi-input unit serve C17 (an input wired after the end is never released)
         if sc.get('c06_ensures'):
             all_props.add('C06')
         all_props.update(sc.get('guard_fact_props', []))
@@ -223,7 +225,7 @@ def collect_verus_units(prop, repo, scratch, only=None):
             obls.append(o)
         for fact, tup in g.get('definite_facts', {}).items():
             ok, why = tup[0], tup[1]
-            fprops = set(tup[2]) if len(tup) > 2 else (props_unit | {'C06'})
+            fprops = set(tup[2]) if len(tup) > 2 else (props_unit | {'C06'} | ({'C17'} if sc.get('kind') == 'multi' else set()))
             if prop in fprops:
                 o = Obl('%s.S.%s.%s' % (prop, op, fact), 'syntactic', 'rxprep', sorted(fprops), unit=op, where=sc['file'])
                 o.status = 'discharged' if ok else 'failed'
